@@ -74,3 +74,211 @@ fn ldro_rule_sx1272() {
         Err(_) => {}
     }
 }
+
+// ---- C17: PA configuration, symbol timeout, packet status -------------------------------------
+fn tx_power_1276(boost: bool) {
+    let mut r = radio_1276();
+    let req: i32 = kani::any();
+    let res = block_on(Sx1276::set_tx_power(&mut r, req, boost));
+    kani::assert(res.is_ok(), "C17: fault-free bus");
+    let cfg = last_write(spi(), 0x09);
+    let dac = last_write(spi(), 0x4D);
+    match (cfg, dac) {
+        (Some(c), Some(d)) => {
+            let op = (c & 0x0f) as i32;
+            let maxp = ((c >> 4) & 7) as i32;
+            kani::assert((c & 0x80 != 0) == boost, "C17: PaSelect matches the board's PA path");
+            kani::assert(d == 0x84 || d == 0x87, "C17: RegPaDac is one of the two documented values");
+            // SX1276 datasheet 5.4.2/5.4.3, in tenths of a dB
+            let pout10 = if boost {
+                if d == 0x87 { 10 * (5 + op) } else { 10 * (2 + op) }
+            } else {
+                108 + 6 * maxp - 10 * (15 - op)
+            };
+            kani::assert(!(d == 0x87) || boost, "C17: the +20 dBm DAC setting is only used on PA_BOOST");
+            kani::assert(!(d == 0x87) || op >= 10, "C17: +20 dBm mode is defined for OutputPower 15 down to +15 dBm");
+            let (lo, hi) = if boost { (2, 20) } else { (-4, 14) };
+            let want = if req < lo { lo } else if req > hi { hi } else { req };
+            kani::assert(pout10 <= 10 * want && pout10 >= 10 * want - 10, "C17: programmed power is the clamped request (within 1 dB, never above)");
+        }
+        _ => kani::assert(false, "C17: RegPaConfig and RegPaDac must be written"),
+    }
+}
+
+//@h id=tx_power_sx1276_boost props=C17,C13 tier=quick build=phy cost=30 timeout=900
+//@bounds every i32 power request on the PA_BOOST path
+//@encodes Sx1276::set_tx_power, Sx127x::set_ocp
+#[kani::proof]
+#[kani::unwind(26)]
+fn tx_power_sx1276_boost() {
+    tx_power_1276(true);
+}
+//@h id=tx_power_sx1276_rfo props=C17,C13 tier=quick build=phy cost=30 timeout=900
+//@bounds every i32 power request on the RFO path
+//@encodes Sx1276::set_tx_power
+#[kani::proof]
+#[kani::unwind(26)]
+fn tx_power_sx1276_rfo() {
+    tx_power_1276(false);
+}
+
+fn tx_power_1272(boost: bool) {
+    let mut r = radio_1272();
+    let req: i32 = kani::any();
+    let res = block_on(Sx1272::set_tx_power(&mut r, req, boost));
+    kani::assert(res.is_ok(), "C17: fault-free bus");
+    match (last_write(spi(), 0x09), last_write(spi(), 0x5A)) {
+        (Some(c), Some(d)) => {
+            let op = (c & 0x0f) as i32;
+            kani::assert((c & 0x80 != 0) == boost && c & 0x70 == 0, "C17: PaSelect matches the PA path, unused bits clear");
+            kani::assert(d == 0x84 || d == 0x87, "C17: RegPaDac is one of the two documented values");
+            // SX1272 datasheet: RFO Pout = -1 + OutputPower; PA_BOOST 2 + OutputPower (5 + .. with the 20 dBm DAC)
+            let pout = if boost { if d == 0x87 { 5 + op } else { 2 + op } } else { -1 + op };
+            kani::assert(!(d == 0x87) || boost, "C17: the +20 dBm DAC setting is only used on PA_BOOST");
+            let (lo, hi) = if boost { (2, 20) } else { (-1, 14) };
+            let want = if req < lo { lo } else if req > hi { hi } else { req };
+            kani::assert(pout == want, "C17: programmed power is the clamped request");
+        }
+        _ => kani::assert(false, "C17: RegPaConfig and RegPaDac must be written"),
+    }
+}
+//@h id=tx_power_sx1272_boost props=C17,C13 tier=quick build=phy cost=30 timeout=900
+//@bounds every i32 power request on the PA_BOOST path of the SX1272
+//@encodes Sx1272::set_tx_power
+#[kani::proof]
+#[kani::unwind(26)]
+fn tx_power_sx1272_boost() {
+    tx_power_1272(true);
+}
+//@h id=tx_power_sx1272_rfo props=C17,C13 tier=quick build=phy cost=30 timeout=900
+//@bounds every i32 power request on the RFO path of the SX1272
+//@encodes Sx1272::set_tx_power
+#[kani::proof]
+#[kani::unwind(26)]
+fn tx_power_sx1272_rfo() {
+    tx_power_1272(false);
+}
+
+//@h id=symb_timeout_sx127x props=C17,C13 tier=quick build=phy cost=30 timeout=900
+//@bounds every u16 symbol count, arbitrary prior RegModemConfig2: the 10-bit SymbTimeout decodes to min(request, 1023) and the other bits of RegModemConfig2 are preserved
+//@encodes Sx127x::set_lora_symbol_num_timeout
+#[kani::proof]
+#[kani::unwind(26)]
+fn symb_timeout_sx127x() {
+    let mut r = radio_1276();
+    let n: u16 = kani::any();
+    let res = block_on(r.set_lora_symbol_num_timeout(n));
+    kani::assert(res.is_ok(), "C17: fault-free bus");
+    let l = spi();
+    let prior = l.script[0][0]; // RegModemConfig2 as read
+    match (last_write(l, 0x1E), last_write(l, 0x1F)) {
+        (Some(c2), Some(lsb)) => {
+            let decoded = (((c2 & 3) as u32) << 8) | lsb as u32;
+            let want = if n > 1023 { 1023 } else { n as u32 };
+            kani::assert(decoded == want, "C17: SymbTimeout decodes to the request (up to the 10-bit maximum)");
+            kani::assert(c2 & 0xFC == prior & 0xFC, "C13: read-modify-write preserves SF/CRC bits of RegModemConfig2");
+        }
+        _ => kani::assert(false, "C17: RegModemConfig2 and RegSymbTimeoutLsb must be written"),
+    }
+}
+
+//@h id=pkt_status_sx1276 props=C17 tier=quick build=phy cost=40 timeout=900
+//@bounds all raw (PktSnrValue, PktRssiValue) pairs, any frequency band: SNR = raw/4, RSSI = offset + 16/15 raw (+ SNR when negative; the datasheet's un-linearised form is accepted as well) within 1 dB, no overflow
+//@encodes Sx127x::get_rx_packet_status, linearize_rssi, Sx1276::rssi_offset
+#[kani::proof]
+#[kani::unwind(26)]
+fn pkt_status_sx1276() {
+    let mut r = radio_1276();
+    let res = block_on(r.get_rx_packet_status());
+    let l = spi();
+    let raw_snr = l.script[0][0] as i8 as i32;
+    let raw_rssi = l.script[1][0] as i32;
+    match res {
+        Ok(ps) => {
+            kani::assert((ps.snr as i32) * 4 <= raw_snr + 4 && (ps.snr as i32) * 4 >= raw_snr - 4, "C17: SNR within 1 dB of raw/4");
+            let rssi = ps.rssi as i32;
+            // offset: -157 (HF) or -164 (LF)
+            let mut ok = false;
+            let mut k = 0;
+            while k < 2 {
+                let off = if k == 0 { -157 } else { -164 };
+                // in fifteenths of a dB
+                let lin15 = 15 * off + 16 * raw_rssi;
+                let raw15 = 15 * off + 15 * raw_rssi;
+                let snr15 = if raw_snr < 0 { 15 * raw_snr / 4 } else { 0 };
+                if (15 * rssi - (lin15 + snr15)).abs() <= 19 || (raw_snr < 0 && (15 * rssi - (raw15 + snr15)).abs() <= 19) {
+                    ok = true;
+                }
+                k += 1;
+            }
+            kani::assert(ok, "C17: RSSI within rounding of the datasheet conversion");
+        }
+        Err(_) => kani::assert(false, "C17: fault-free bus"),
+    }
+}
+
+// ---- C18: fetching a received packet never overruns the caller's buffer ------------------------
+fn rx_payload_127x<const B: usize>(implicit: bool) {
+    let mut r = radio_1276();
+    let canary: u8 = kani::any();
+    let mut buf = [canary; B];
+    let cfg_len: u8 = kani::any();
+    let pp = PacketParams { preamble_length: 8, implicit_header: implicit, payload_length: cfg_len, crc_on: true, iq_inverted: true };
+    let res = block_on(r.get_rx_payload(&pp, &mut buf));
+    let l = spi();
+    let k: usize = kani::any();
+    kani::assume(k < B);
+    match res {
+        Ok(n) => {
+            let n = n as usize;
+            kani::assert(n <= B, "C18: returned length exceeds the caller's buffer");
+            let want = if implicit { cfg_len as usize } else { l.script[0][0] as usize };
+            kani::assert(n == want, "C18: returned length is RegRxNbBytes (implicit header: the configured length)");
+            // sequence: [read RxNbBytes,] read FifoRxCurrentAddr, write FifoAddrPtr, read Fifo, write FifoAddrPtr=0
+            let base = if implicit { 0 } else { 1 };
+            kani::assert(l.n == base + 4, "C18: transaction count");
+            let cur = l.script[base][0];
+            kani::assert(l.t[base].w[0] == 0x10, "C18: RegFifoRxCurrentAddr is read");
+            kani::assert(l.t[base + 1].w[0] == 0x8D && l.t[base + 1].w[1] == cur, "C18: FIFO pointer set to the start of the received packet");
+            kani::assert(l.t[base + 2].w[0] == 0x00 && l.t[base + 2].rlen == n, "C18: exactly the packet's bytes are read from the FIFO");
+            if k >= n {
+                kani::assert(buf[k] == canary, "C18: bytes beyond the packet must be left untouched");
+            } else if n > MAXRB {
+                if k == l.big_j {
+                    kani::assert(buf[k] == l.big_v, "C18: packet bytes come from the FIFO");
+                }
+            } else {
+                kani::assert(buf[k] == l.script[base + 2][k % MAXRB], "C18: packet bytes come from the FIFO");
+            }
+            kani::cover!(n == B && B > 0, "packet fills the buffer exactly");
+        }
+        Err(e) => {
+            kani::assert(buf[k] == canary, "C18: a failed fetch must not touch the buffer");
+            kani::cover!(matches!(e, RadioError::PayloadSizeMismatch(_, _)), "chip reports more bytes than the buffer holds");
+        }
+    }
+}
+macro_rules! rxp127 { ($name:ident, $b:expr, $imp:expr) => {
+    #[kani::proof]
+    #[kani::unwind(26)]
+    fn $name() { rx_payload_127x::<$b>($imp) }
+}; }
+//@h id=rx_payload_sx127x_b0 props=C18 tier=quick build=phy cost=20 timeout=900
+//@bounds caller buffer of 0 bytes, explicit header; RegRxNbBytes and RegFifoRxCurrentAddr arbitrary
+//@encodes Sx127x::get_rx_payload, read_register, read_buffer, write_register
+rxp127!(rx_payload_sx127x_b0, 0, false);
+//@h id=rx_payload_sx127x_b1 props=C18 tier=quick build=phy cost=20 timeout=900
+//@bounds caller buffer of 1 byte, implicit header with any configured length
+rxp127!(rx_payload_sx127x_b1, 1, true);
+//@h id=rx_payload_sx127x_b12 props=C18 tier=quick build=phy cost=20 timeout=900
+//@bounds caller buffer of 12 bytes, explicit header
+rxp127!(rx_payload_sx127x_b12, 12, false);
+//@h id=rx_payload_sx127x_b64 props=C18 tier=quick build=phy cost=30 timeout=900
+//@bounds caller buffer of 64 bytes, explicit header
+rxp127!(rx_payload_sx127x_b64, 64, false);
+//@h id=rx_payload_sx127x_b255 props=C18 tier=quick build=phy cost=30 timeout=900
+//@bounds caller buffer of 255 bytes, implicit header
+rxp127!(rx_payload_sx127x_b255, 255, true);
+//@h id=rx_payload_sx127x_b256 props=C18 tier=quick build=phy cost=30 timeout=900
+//@bounds caller buffer of 256 bytes, explicit header
+rxp127!(rx_payload_sx127x_b256, 256, false);
